@@ -70,7 +70,10 @@ Definition ustep (rs : list req) (e : uev) : list req :=
 Definition urun (rs : list req) (evs : list uev) : list req := fold_left ustep evs rs.
 
 (** ---------- a node: sessions' live wants ---------- *)
-Record node := { n_reqs : list req; n_sw : list (nat * list nat) }.   (* session -> live wants *)
+Record node := {
+  n_reqs : list req;
+  n_sw : list (nat * list nat);     (* session -> live wants *)
+  n_stale : list nat }.             (* wants registered with the peers that no session tracks *)
 
 Fixpoint sw_get (sw : list (nat * list nat)) (s : nat) : list nat :=
   match sw with [] => [] | (s', l) :: r => if s' =? s then l else sw_get r s end.
@@ -80,12 +83,15 @@ Fixpoint sw_set (sw : list (nat * list nat)) (s : nat) (l : list nat) : list (na
   | (s', l') :: r => if s' =? s then (s, l) :: r else (s', l') :: sw_set r s l
   end.
 Definition nunion (a b : list nat) : list nat := a ++ ndiff b a.
-Definition wantlist (n : node) : list nat := dedup (flat_map snd (n_sw n)).
+Definition wantlist (n : node) : list nat :=
+  dedup (flat_map (fun sl => sw_get (n_sw n) (fst sl)) (n_sw n) ++ n_stale n).
 
 Inductive nev :=
 | NStart (sess : nat) (ks : list nat)     (* session.GetBlocks: subscribe, then opWant *)
 | NBlock (k : nat)                        (* a block for k reaches the node *)
-| NCancel (i : nat).                      (* the context of request i is cancelled *)
+| NCancel (i : nat)                       (* the context of request i is cancelled *)
+| NLate (k : nat).                        (* the session want sender sends a want-block for k that it
+                                             computed before k was received (C37-2); only with [f_late_want] *)
 
 (** keys other open requests of the same session still wait for *)
 Fixpoint others_wait (rs : list req) (skip i : nat) (sess : nat) : list nat :=
@@ -96,15 +102,25 @@ Fixpoint others_wait (rs : list req) (skip i : nat) (sess : nat) : list nat :=
       ++ others_wait rest skip (S i) sess
   end.
 
-Definition nstep (shared_cancel : bool) (n : node) (e : nev) : node :=
+Record flags := { f_shared_cancel : bool; f_late_want : bool }.
+Definition flags_off := {| f_shared_cancel := false; f_late_want := false |}.
+
+Definition nstep (fl : flags) (n : node) (e : nev) : node :=
+  let shared_cancel := f_shared_cancel fl in
   match e with
   | NStart s ks =>
       {| n_reqs := n_reqs n ++ [start s ks];
-         n_sw := match ks with [] => n_sw n | _ => sw_set (n_sw n) s (nunion (sw_get (n_sw n) s) (dedup ks)) end |}
+         n_sw := match ks with [] => n_sw n | _ => sw_set (n_sw n) s (nunion (sw_get (n_sw n) s) (dedup ks)) end;
+         n_stale := n_stale n |}
   | NBlock k =>
       if nmem k (wantlist n)                     (* unwanted blocks are dropped, not published *)
       then {| n_reqs := map (arrive k) (n_reqs n);
-              n_sw := map (fun sl => (fst sl, nrem k (snd sl))) (n_sw n) |}
+              n_sw := map (fun sl => (fst sl, nrem k (snd sl))) (n_sw n);
+              n_stale := n_stale n |}
+      else n
+  | NLate k =>
+      if f_late_want fl && negb (nmem k (wantlist n))
+      then {| n_reqs := n_reqs n; n_sw := n_sw n; n_stale := k :: n_stale n |}
       else n
   | NCancel i =>
       match nth_error (n_reqs n) i with
@@ -114,12 +130,13 @@ Definition nstep (shared_cancel : bool) (n : node) (e : nev) : node :=
           else
             let s := q_sess r in
             let gone := if shared_cancel then q_sub r else ndiff (q_sub r) (others_wait (n_reqs n) i 0 s) in
-            {| n_reqs := upd (n_reqs n) i cancel; n_sw := sw_set (n_sw n) s (ndiff (sw_get (n_sw n) s) gone) |}
+            {| n_reqs := upd (n_reqs n) i cancel; n_sw := sw_set (n_sw n) s (ndiff (sw_get (n_sw n) s) gone);
+               n_stale := n_stale n |}
       end
   end.
-Definition node0 : node := {| n_reqs := []; n_sw := [] |}.
-Definition nrun (f : bool) (n : node) (evs : list nev) : node := fold_left (nstep f) evs n.
-Fixpoint ntrace (f : bool) (n : node) (evs : list nev) : list (list nat) :=
+Definition node0 : node := {| n_reqs := []; n_sw := []; n_stale := [] |}.
+Definition nrun (f : flags) (n : node) (evs : list nev) : node := fold_left (nstep f) evs n.
+Fixpoint ntrace (f : flags) (n : node) (evs : list nev) : list (list nat) :=
   match evs with
   | [] => []
   | e :: r => let n' := nstep f n e in wantlist n' :: ntrace f n' r
@@ -139,7 +156,9 @@ Definition starving (n : node) : bool :=
   existsb (fun r => negb (q_done r) && negb (subsetb (q_sub r) (sw_get (n_sw n) (q_sess r)))) (n_reqs n).
 (** leaked wants: a session want no open request of that session waits for *)
 Definition leaking (n : node) : bool :=
-  existsb (fun sl => negb (subsetb (snd sl) (others_wait (n_reqs n) (length (n_reqs n)) 0 (fst sl)))) (n_sw n).
+  existsb (fun sl => negb (subsetb (sw_get (n_sw n) (fst sl))
+                                   (others_wait (n_reqs n) (length (n_reqs n)) 0 (fst sl)))) (n_sw n) ||
+  match n_stale n with [] => false | _ => true end.
 
 (** ---------- cases ---------- *)
 Fixpoint sortn (l : list nat) : list nat :=
@@ -200,6 +219,17 @@ Definition sys_safe (r : sreq) : bool := delivered_ok (s_keys r) (s_out r) && s_
 Definition sys_complete (r : sreq) : bool := seteqb (s_out r) (dedup (s_keys r)).
 Definition sys_live (r : sreq) : bool := s_cancelled r || negb (s_avail r) || sys_complete r.
 
+(** what may be left in the want-lists at the end because of C37-2 (a want sent by the session
+    want sender after the session cancelled the key, on receipt or on cancellation): keys that
+    some request of that node asked for.  Anything else in a final want-list is a failure. *)
+Fixpoint leaks_known (rs : list sreq) (n : nat) (wl : list (list nat)) : bool :=
+  match wl with
+  | [] => true
+  | l :: rest =>
+      forallb (fun k => existsb (fun r => (s_node r =? n) && nmem k (s_keys r)) rs) l &&
+      leaks_known rs (S n) rest
+  end.
+
 Definition check_case (c : case) : verdict :=
   match c with
   | CUnit reqs evs obs =>
@@ -208,18 +238,23 @@ Definition check_case (c : case) : verdict :=
                  (list_eqb (fun k o => uspec k o) reqs obs)
   | CNode eos outs =>
       let evs := map fst eos in
+      let f1 := {| f_shared_cancel := true; f_late_want := false |} in
       let spec := fun f => let n := nrun f node0 evs in negb (starving n) && negb (leaking n) in
       let same := fun f =>
         list_eqb (fun w o => match o with Some l => nl_eqb (sortn w) (sortn l) | None => true end)
                  (ntrace f node0 evs) (map snd eos) &&
         list_eqb (fun r o => nl_eqb (sortn (q_out r)) (sortn o)) (n_reqs (nrun f node0 evs)) outs in
-      if same false then verdict_of true (spec false)
-      else if same true then (if spec true then VOk else if spec false then VKnown 1 else VSpecFail)
+      if same flags_off then verdict_of true (spec flags_off)
+      else if same f1 then (if spec f1 then VOk else if spec flags_off then VKnown 1 else VSpecFail)
       else VModelMismatch
   | CSys reqs wl =>
-      let safe := forallb sys_safe reqs && forallb (fun l => match l with [] => true | _ => false end) wl in
+      let safe := forallb sys_safe reqs in
+      let live_ok := forallb sys_live reqs in
+      let live_known := forallb (fun r => sys_live r || shares_cancelled reqs r) reqs in
+      let wl_ok := forallb (fun l => match l with [] => true | _ => false end) wl in
       if negb safe then VSpecFail
-      else if forallb sys_live reqs then VOk
-      else if forallb (fun r => sys_live r || shares_cancelled reqs r) reqs then VKnown 1
+      else if live_ok && wl_ok then VOk
+      else if live_ok && leaks_known reqs 0 wl then VKnown 2
+      else if live_known && leaks_known reqs 0 wl then VKnown 1
       else VSpecFail
   end.
